@@ -321,3 +321,97 @@ def fast_sir_scripted(scn, EoN):
     if leaf.error is not None:
         return leaf.error
     return leaf.result[0], leaf.result[1], bad
+
+
+def fast_sir_unweighted_scripted(scn, ref, EoN):
+    """fast_SIR on its unweighted fast path (binomial number of recipients, sample, truncated
+    exponential delays) driven so that it realises the delay/duration tables of `scn`:
+      expovariate(gamma*g[u]) -> duration[u]            (g distinct per node identifies u)
+      binomial(n, p)          -> j = #susceptible neighbours v with delay[u][v] < duration[u]
+                                 (n must be the number of susceptible neighbours, p = 1-exp(-tau*duration))
+      sample(pop, j)          -> those neighbours
+      expovariate(tau)        -> delay[u][v] + m*duration[u]  (m = 0,1,2: the code must reduce it modulo the duration)
+    The susceptible neighbours of u at its infection are read off the reference outcome TLC emitted
+    (event times are pairwise distinct in this scenario family).  Returns problems [(kind, detail)]."""
+    import math
+    n = scn["n"]
+    nodes = list(range(1, n + 1))
+    G = build(scn)
+    tau, gamma = 0.5, 1.0
+    g = {u: 1.0 + u / 16.0 for u in nodes}
+    for u in nodes:
+        G.nodes[u]["g"] = g[u]
+    recrate = {gamma * g[u]: u for u in nodes}
+    inf = ref["inf"]
+    # distinct event times are required for the susceptible-neighbour sets to be well defined
+    times = [x for x in inf if x < INF] + [x for x in ref["rec"] if x < INF]
+    I0 = [u for u in nodes if scn["init"][u - 1] == "I"]
+    if len(set(times)) != len(times) - (len(I0) - 1 if len(I0) > 1 else 0):
+        return None
+
+    def sus_nbrs(u):
+        return [v for v in nodes if scn["adj"][u - 1][v - 1] and scn["init"][v - 1] != "R"
+                and (inf[v - 1] >= INF or inf[v - 1] > inf[u - 1]) and not (scn["init"][v - 1] == "I")]
+    # initially infected nodes are all infected at tmin, one after the other: a later one is still susceptible
+    # when an earlier one is processed -> ambiguous; keep single-seed scenarios or seeds that are not adjacent
+    for a in I0:
+        for b in I0:
+            if a != b and scn["adj"][a - 1][b - 1]:
+                return None
+    state = {"owner": None, "queue": [], "m": 0}
+    bad = []
+
+    def delays(k, rate):
+        if rate in recrate:
+            state["owner"] = recrate[rate]
+            return fl(scn["dur"][state["owner"] - 1])
+        if rate == tau:
+            if not state["queue"]:
+                bad.append(("draw-protocol", "an unexpected transmission-delay draw for node %r" % state["owner"]))
+                return 1.0
+            v = state["queue"].pop(0)
+            u = state["owner"]
+            state["m"] = (state["m"] + 1) % 3
+            return fl(scn["delay"][u - 1][v - 1]) + state["m"] * fl(scn["dur"][u - 1])
+        bad.append(("draw-rate", "expovariate(%r): neither a recovery rate gamma*g[u] nor tau" % rate))
+        return 1.0
+
+    def decider(kind, info, pop, probs):
+        u = state["owner"]
+        P = sus_nbrs(u)
+        rec = [v for v in P if scn["delay"][u - 1][v - 1] < scn["dur"][u - 1]]
+        if kind == "binomial":
+            want_p = 1.0 - math.exp(-tau * fl(scn["dur"][u - 1]))
+            if info["n"] != len(P):
+                bad.append(("binomial-n", "node %d: binomial(n=%d) but it has %d susceptible neighbours %r" % (u, info["n"], len(P), P)))
+            if abs(info["p"] - want_p) > 1e-12:
+                bad.append(("binomial-p", "node %d: binomial p=%r, 1-exp(-tau*duration)=%r" % (u, info["p"], want_p)))
+            state["queue"] = list(rec)
+            state["todo"] = list(rec)
+            return min(len(rec), info["n"])
+        if kind == "sample":
+            if sorted(pop) != sorted(set(pop) | set(state["todo"])) or not state["todo"]:
+                bad.append(("sample-population", "node %d: sample from %r, susceptible neighbours %r" % (u, pop, P)))
+                return 0
+            v = state["todo"].pop(0)
+            return list(pop).index(v)
+        bad.append(("draw-kind", "unexpected draw %s" % kind))
+        return 0
+    R0 = [u for u in nodes if scn["init"][u - 1] == "R"]
+    kw = dict(initial_infecteds=list(I0), tmin=fl(scn["tmin"]), tmax=fl(scn["tmax"]), recovery_weight="g", return_full_data=True)
+    if R0:
+        kw["initial_recovereds"] = list(R0)
+
+    def fn():
+        sim = EoN.fast_SIR(G, tau, gamma, **kw)
+        hist = {u: (list(sim.node_history(u)[0]), list(sim.node_history(u)[1])) for u in nodes}
+        return hist, [tuple(x) for x in sim.transmissions()]
+    leaf = scripted.run_scripted(fn, [], delays=delays, decider=decider)
+    if leaf.error is not None:
+        return [("exception:%s" % type(leaf.error).__name__, repr(leaf.error))]
+    out = list(bad)
+    # the scenario the code actually realised: non-recipients never transmit
+    eff = dict(scn)
+    eff["delay"] = [[(scn["delay"][a][b] if scn["delay"][a][b] < scn["dur"][a] else INF) for b in range(n)] for a in range(n)]
+    out += compare_full(eff, ref, leaf.result[0], leaf.result[1])
+    return out
